@@ -5,6 +5,7 @@ from ..flow import ExprBuilder, mentions_field, mentions_call, is_call, is_field
     guarded, seed_after_call, Sccp, I, V, X, strip, value_set
 from ..graph import field_rw, field_rw_deep, enum_table, discr_switches
 from ..facts import op_const, op_place, fields_of_place
+from .. import wire as W
 
 TITLE = "filter precedence"
 EXPLANATION = (
@@ -257,6 +258,51 @@ def nearest_rule(ctx, r):
                   fn=f, loc=c.loc, construct="independence")
         else:
             r.ok(key, "%d assignment site(s) of %s do not depend on other sources' results" % (len(cs), f.local_name(a)), fn=f)
+    # the two directory loops partition the parents at the search root: take_while(!is_absolute_parent) /
+    # skip_while(!is_absolute_parent); explicit ignore files are scanned last-added first
+    parts = {"take_while": None, "skip_while": None}
+    for c in f.calls():
+        nm = c.path.split("::")[-1]
+        if nm in parts and c.path.startswith("core::iter::traits::iterator::Iterator::"):
+            cl = [x for x in walk(eb.operand(c.args[1])) if x.k == "closure"]
+            g_ = facts.fns.get(cl[0][1]) if cl else None
+            if g_ is not None:
+                eg = ExprBuilder(g_).local(0)
+                parts[nm] = eg.k == "not" and is_field(strip(eg[1]), INNER, "is_absolute_parent")
+    if parts["take_while"] and parts["skip_while"]:
+        r.ok("partition", "in-root directories: take_while(!is_absolute_parent); above the root: skip_while(!is_absolute_parent)", fn=f)
+    else:
+        r.bad("partition", "the two directory loops no longer partition the parents at the search root (%s)" % parts, fn=f, construct="partition")
+    ex = [c for c in f.calls() if c.is_("core::iter::traits::iterator::Iterator::next") and
+          mentions_field(eb.operand(c.args[0]), INNER, "explicit_ignores")]
+    if ex and all("rev::Rev" in (c.func.get("resolved") or "") for c in ex):
+        r.ok("explicit-order", "--ignore-file matchers are consulted last-added first", fn=f)
+    else:
+        r.bad("explicit-order", "explicit ignore files are no longer scanned in reverse order of addition", fn=f, construct="explicit-order")
+    # the repository-root flag: starts false, only ever accumulates has_git
+    sg = None
+    for l_ in range(len(f.locals)):
+        e_ = eb.local(l_)
+        if e_.k == "phi" and e_[1] == l_ and f.local_ty(l_) == "bool" and any(m_.k == "const" and m_[1] == 0 for m_ in e_[2]) and \
+                any(mentions_field(m_, INNER, "has_git") for m_ in e_[2]) and \
+                not any(is_call(m_, "core::iter::traits::iterator::Iterator::any") for m_ in e_[2]) and \
+                f.locals[l_].get("name"):          # a user variable (the accumulator), not a lowering temporary of `a || b`
+            sg = (l_, e_)
+    if sg:
+        def fine(m_):
+            if m_.k == "const":
+                return m_[1] == 0
+            if m_.k in ("phi", "local") and m_[1] == sg[0]:
+                return True
+            if m_.k == "phi":      # the lowered `saw_git || has_git`: φ(true, has_git)
+                return all((x.k == "const" and x[1] == 1) or mentions_field(x, INNER, "has_git") for x in m_[2])
+            return mentions_field(m_, INNER, "has_git")
+        if all(fine(m_) for m_ in sg[1][2]):
+            r.ok("saw_git", "the 'passed a repository root' flag starts false and only accumulates has_git", fn=f)
+        else:
+            r.bad("saw_git", "the 'passed a repository root' flag is initialised / updated differently (%s)" % show(sg[1])[:80], fn=f, construct="saw_git")
+    else:
+        r.bad("saw_git", "anchor-missing: no accumulator of has_git (initialised false) in matched_ignore", fn=f)
     # absolute-parent loop guarded by opts.parents
     sw = cond_switches(f, lambda e: is_field(strip(e), OPTS, "parents") or mentions_field(e, OPTS, "parents"), eb)
     ab = f.calls_to(D + "::Ignore::absolute_base")
@@ -334,6 +380,27 @@ def top_rule(ctx, r):
             r.bad(lbl, "an ignore verdict of %s is not returned immediately" % site.path.split("::")[-1], fn=f, loc=isi[0].loc)
         else:
             r.ok(lbl, "ignore verdict ⇒ returned", fn=f)
+    # the three stages are consulted exactly when they hold rules
+    har = facts.fn(D + "::Ignore::has_any_ignore_rules")
+    env_h = H.LetEnv(har.hir)
+    tail_h = H.tail_expr(har.hir)
+    at_h = ["opts.ignore", "opts.git_global", "opts.git_ignore", "opts.git_exclude",
+            "self.0.custom_ignore_filenames.is_empty()", "self.0.explicit_ignores.is_empty()"]
+    okh, det = H.equivalent(tail_h, at_h, lambda v: v[at_h[0]] or v[at_h[1]] or v[at_h[2]] or v[at_h[3]] or (not v[at_h[4]]) or (not v[at_h[5]]),
+                            env=env_h)
+    if okh:
+        r.ok("any-rules", "has_any_ignore_rules ≡ any option on ∨ custom names ∨ explicit ignores (%s)" % det, fn=har)
+    else:
+        r.bad("any-rules", "has_any_ignore_rules: %s (a source could be skipped entirely)" % det, fn=har, construct="any-rules")
+    for callee, gate, pol, lbl in ((ov[0], "ignore::overrides::Override::is_empty", False, "overrides"),
+                                   (mi[0], D + "::Ignore::has_any_ignore_rules", True, "ignore rules"),
+                                   (ty[0], "ignore::types::Types::is_empty", False, "types")):
+        sw = cond_switches(f, lambda e: is_call(e, gate), eb)
+        if sw and not guarded(f, [callee.bb], sw, pol):
+            # and nothing else gates it: the stage is consulted whenever the gate allows
+            r.ok("stage|" + lbl, "%s consulted iff %s%s" % (lbl, "" if pol else "!", gate.split("::")[-1]), fn=f)
+        else:
+            r.bad("stage|" + lbl, "the %s stage is not consulted exactly when it holds rules" % lbl, fn=f, construct="stage")
     # hidden only when nothing matched
     g = facts.fn(D + "::Ignore::matched_dir_entry")
     ebg = ExprBuilder(g)
@@ -644,6 +711,28 @@ def opts_rule(ctx, r):
                           construct=fld)
     else:
         r.bad("store", "anchor-missing: expected one IgnoreInner literal in add_child_path", fn=f)
+    # who marks a matcher as "above the search root": add_parents sets it, add_child_path and build clear it
+    if len(agg) == 1:
+        rv = agg[0]["rv"]
+        v_ = W.const_val(eb.operand(rv["ops"][rv["fields"].index("is_absolute_parent")]))
+        hg = eb.operand(rv["ops"][rv["fields"].index("has_git")])
+        if v_ == 0 and (mentions_call(hg, "core::option::Option::map") or any(x.k in ("phi", "local") for x in walk(hg))):
+            r.ok("child|flags", "child matchers: is_absolute_parent = false, has_git from the .git probe", fn=f)
+        else:
+            r.bad("child|flags", "add_child_path builds matchers with is_absolute_parent=%s / has_git=%s" % (v_, show(hg)[:40]), fn=f,
+                  construct="flags")
+    ap = facts.fn(D + "::Ignore::add_parents")
+    ebp = ExprBuilder(ap)
+    setabs = [st for bb, j, st in ap.stmts() if st["k"] == "assign" and (INNER, "is_absolute_parent") in fields_of_place(st["place"])]
+    if setabs and all((op_const(st["rv"].get("a", {})) or {}).get("val") == 1 for st in setabs):
+        r.ok("parents|flag", "add_parents marks every parent matcher is_absolute_parent = true", fn=ap)
+    else:
+        r.bad("parents|flag", "add_parents no longer marks parent matchers as above the search root", fn=ap, construct="flags")
+    nx = [c for c in ap.calls() if c.is_("core::iter::traits::iterator::Iterator::next") and "rev::Rev" in (c.func.get("resolved") or "")]
+    if nx:
+        r.ok("parents|order", "parents are chained from the filesystem root downwards (reverse of child→root)", fn=ap)
+    else:
+        r.bad("parents|order", "add_parents chains the parent directories in the wrong order", fn=ap, construct="order")
     # IgnoreBuilder::build: global matcher guarded by opts.git_global
     b = facts.fn(IGB + "::build")
     ebb = ExprBuilder(b)
